@@ -198,3 +198,61 @@ class SymStr:
             model.eval(bv8(b), model_completion=True).as_long() if z3.is_expr(b) else b
             for b in s.items)
         return raw.decode(s.enc, "strict" if not s.lossy else s.lossy)
+
+
+class SymText:
+    """text rendering of a symbolic value: str(int) ('dec') or bytes.hex() ('hex').
+    Only equality with concrete strings is supported (what MatchingParameter.matches needs)."""
+    __class__ = property(lambda s: str)
+
+    def __init__(s, kind, payload, upper=False, lower=False):
+        s.kind, s.payload, s.up, s.lo = kind, payload, upper, lower
+
+    def upper(s):
+        return SymText(s.kind, s.payload, upper=True)
+
+    def lower(s):
+        return SymText(s.kind, s.payload, lower=True)
+
+    def _eq(s, o):
+        import re
+        if isinstance(o, SymText):
+            if o.kind == s.kind == "dec":
+                return s.payload == o.payload
+            raise Unsupported("comparison of two symbolic texts")
+        if not isinstance(o, str):
+            return False
+        if s.kind == "dec":
+            # str(v) == "123"  <=>  v == 123 for canonical numerals
+            if not re.fullmatch(r"-?(0|[1-9][0-9]*)", o) or o == "-0":
+                return False
+            return s.payload == int(o)
+        if s.kind == "hex":
+            items = s.payload
+            pat = r"[0-9A-F]*" if s.up else r"[0-9a-f]*"
+            if not re.fullmatch(pat, o) or len(o) != 2 * len(items):
+                return False
+            return core.mkbytes(items) == bytes.fromhex(o)
+        raise Unsupported(s.kind)
+
+    def __eq__(s, o):
+        return s._eq(o)
+
+    def __ne__(s, o):
+        return core.s_not(s._eq(o))
+
+    def __hash__(s):
+        raise Unsupported("hash of a symbolic text")
+
+    def __repr__(s):
+        return "<symtext>"
+
+    __str__ = __repr__
+
+    def __format__(s, spec):
+        return "<symtext>"
+
+    def __len__(s):
+        if s.kind == "hex":
+            return 2 * len(s.payload)
+        raise Unsupported("len of a symbolic numeral")
